@@ -1043,7 +1043,9 @@ impl SQLExpression for BinaryOperator {
     fn associativity(&self) -> Associativity {
         use BinaryOperator::*;
         match self {
-            Minus | Divide | Modulo => Associativity::Left,
+            // `a * (b % c)` and `a * (b / c)` (integer division) are not
+            // `a * b % c` and `a * b / c`
+            Minus | Multiply | Divide | Modulo => Associativity::Left,
             // `a = b = c` is a syntax error in PostgreSQL and `a = (b < c)` is
             // not `a = b < c` in SQLite, so comparisons never chain
             Gt | Lt | GtEq | LtEq | Eq | NotEq => Associativity::None,
